@@ -387,7 +387,7 @@ func (r *rewriter) rewriteForRanges(c *astutil.Cursor, pkg loader.Pkg) bool {
 //		$body
 //	}
 func (r *rewriter) rewriteForRange(pkg loader.Pkg, fr *ast.RangeStmt) *ast.ForStmt {
-	isValid := fr.Key != nil && fr.Value == nil
+	isValid := fr.Value == nil
 	r.assert(pkg, isValid, fr, "invalid for range")
 
 	// iter := X.Ident(cstIterVar)
@@ -402,6 +402,10 @@ func (r *rewriter) rewriteForRange(pkg loader.Pkg, fr *ast.RangeStmt) *ast.ForSt
 		// for v := range it { v := ... }: the loop variable and the body's own
 		// declaration would end up in one block, keep the body in its own scope
 		stmts = []ast.Stmt{X.Block(stmts...)}
+	}
+	if fr.Key == nil {
+		// for range it { ... }: no loop variable
+		return X.ForStmt(init, cond, nil, X.Block(stmts...))
 	}
 	body := X.Block1(
 		X.Assign(fr.Tok, fr.Key, X.Call(current)),
